@@ -31,6 +31,11 @@ def cells(tier):
                 acts = ra + [[GAC, A("Z", 1), M("Y", 1, 1)]] + ([[UNTIL]] if un else [])
                 sc = scen(pool(size), acts, outcomes=["ret"], ecb="plain", ccb="plain")
                 out.append(cell(f"s{size} {rn} gac+after{' until' if un else ''}", sc, MON))
+    # a flush() still in flight (blocked on a task in its slow end callback) when gather_and_close() is called
+    sc = scen(pool(2), [[A("A", 2)], [FLUSH], [GAC], [UNTIL]], outcomes=["ret"], ecb="slow", ccb="plain", slow_ids=[0, 1])
+    out.append(cell("s2 A2 flush(in flight) gac until slowecb[0,1]", sc, MON))
+    sc = scen(pool(2), [[A("A", 2)], [cancel(rid("A", 0))], [FLUSH_RE], [GAC]], outcomes=["ret"], ecb="coro", ccb="slow", slow_ids=[0])
+    out.append(cell("s2 A2 cancel0 flushRE(in flight) gac slowccb0", sc, MON))
     for size in [1, 2]:
         sc = scen(pool(size), [[A("X", size)], [A("A", 2), cgroup("A"), A("B", 3)], [GAC]], outcomes=["ret"])
         out.append(cell(f"s{size} X{size}|A2,cgroupA,B3 (auto name re-used at once)|gac", sc, MON))
